@@ -114,6 +114,9 @@ fn run_history(ops: &[Op], st: &mut Stats) -> Option<(usize, String)> {
     // table may drop entries: "either nothing or the data most recently accepted")
     let mut model: HashMap<u64, Rec> = HashMap::new();
     for (i, op) in ops.iter().enumerate() {
+        if i % 16 == 0 {
+            crate::report::note_case(&format!("store/retrieve history, operation #{} of {}: {}", i, ops.len(), op_json(op).to_string()));
+        }
         match op {
             Op::Get(k) => {
                 let got = match engine_call(|| tt.retrieve(*k).copied()) {
@@ -192,6 +195,7 @@ fn run_history(ops: &[Op], st: &mut Stats) -> Option<(usize, String)> {
 /// or exactly the data accepted for that key, and a held deeper result must still refuse a shallower
 /// one. The history is a function of (seed, n_fill), so the replay file only names those.
 fn capacity_history(seed: u64, n_fill: u64, st: &mut Stats) -> Option<String> {
+    crate::report::note_case(&format!("capacity history: seed {}, {} distinct keys", seed, n_fill));
     let mut rng = Rng::new(seed, 0xCA9A);
     let mut tt = TranspositionTable::new();
     let mut anchors: Vec<(u64, Rec)> = vec![];
